@@ -102,6 +102,12 @@
 (define-unfold sum.bm.amount ((a (Array Int cashu.BlindedMessage)) (n Int)) Int (ite (<= n 0) 0 (+ (sum.bm.amount a (- n 1)) (nn (cashu.BlindedMessage.Amount (select a (- n 1)))))))
 (define-unfold sum.proof.amount ((a (Array Int cashu.Proof)) (n Int)) Int (ite (<= n 0) 0 (+ (sum.proof.amount a (- n 1)) (nn (cashu.Proof.Amount (select a (- n 1)))))))
 (define-unfold sum.sig.amount ((a (Array Int cashu.BlindedSignature)) (n Int)) Int (ite (<= n 0) 0 (+ (sum.sig.amount a (- n 1)) (nn (cashu.BlindedSignature.Amount (select a (- n 1)))))))
+;@appendsum cashu.Proof sum.proof.amount
+; nested sums of the two token formats (inner slices are read from the heap of
+; proof slices, passed as an argument)
+(define-unfold sum.v3 ((a (Array Int cashu.TokenV3Proof)) (h (Array Ref (Array Int cashu.Proof))) (n Int)) Int (ite (<= n 0) 0 (+ (sum.v3 a h (- n 1)) (sum.proof.amount (select h (cashu.TokenV3Proof.Proofs (select a (- n 1)))) (rlen (cashu.TokenV3Proof.Proofs (select a (- n 1))))))))
+(define-unfold sum.pv4 ((a (Array Int cashu.ProofV4)) (n Int)) Int (ite (<= n 0) 0 (+ (sum.pv4 a (- n 1)) (nn (cashu.ProofV4.Amount (select a (- n 1)))))))
+(define-unfold sum.v4 ((a (Array Int cashu.TokenV4Proof)) (h (Array Ref (Array Int cashu.ProofV4))) (n Int)) Int (ite (<= n 0) 0 (+ (sum.v4 a h (- n 1)) (sum.pv4 (select h (cashu.TokenV4Proof.Proofs (select a (- n 1)))) (rlen (cashu.TokenV4Proof.Proofs (select a (- n 1))))))))
 ;@module sums.ax
 ;@attach sums
 ; non-negativity and frame under an update at or beyond the prefix: both are
@@ -110,6 +116,9 @@
 (assert (forall ((a (Array Int cashu.BlindedMessage)) (n Int)) (! (>= (sum.bm.amount a n) 0) :pattern ((sum.bm.amount a n)))))
 (assert (forall ((a (Array Int cashu.Proof)) (n Int)) (! (>= (sum.proof.amount a n) 0) :pattern ((sum.proof.amount a n)))))
 (assert (forall ((a (Array Int cashu.BlindedSignature)) (n Int)) (! (>= (sum.sig.amount a n) 0) :pattern ((sum.sig.amount a n)))))
+(assert (forall ((a (Array Int cashu.ProofV4)) (n Int)) (! (>= (sum.pv4 a n) 0) :pattern ((sum.pv4 a n)))))
+(assert (forall ((a (Array Int cashu.TokenV3Proof)) (h (Array Ref (Array Int cashu.Proof))) (n Int)) (! (>= (sum.v3 a h n) 0) :pattern ((sum.v3 a h n)))))
+(assert (forall ((a (Array Int cashu.TokenV4Proof)) (h (Array Ref (Array Int cashu.ProofV4))) (n Int)) (! (>= (sum.v4 a h n) 0) :pattern ((sum.v4 a h n)))))
 (assert (forall ((a (Array Int cashu.BlindedSignature)) (i Int) (v cashu.BlindedSignature) (n Int)) (! (=> (<= n i) (= (sum.sig.amount (store a i v) n) (sum.sig.amount a n))) :pattern ((sum.sig.amount (store a i v) n)))))
 (assert (forall ((a (Array Int cashu.Proof)) (i Int) (v cashu.Proof) (n Int)) (! (=> (<= n i) (= (sum.proof.amount (store a i v) n) (sum.proof.amount a n))) :pattern ((sum.proof.amount (store a i v) n)))))
 (assert (forall ((a (Array Int cashu.BlindedMessage)) (i Int) (v cashu.BlindedMessage) (n Int)) (! (=> (<= n i) (= (sum.bm.amount (store a i v) n) (sum.bm.amount a n))) :pattern ((sum.bm.amount (store a i v) n)))))
